@@ -626,6 +626,15 @@ class Exec:
                 if isinstance(n, ast.Name):
                     mod[n.id] = "rebind"
         saved_ord = self.loop_ordinal
+        # ghost variables (re)bound by hooks anchored at statements inside the loop body
+        for g in getattr(self.contract, "ghosts", None) or []:
+            if g.get("let"):
+                anchor = g.get("after") or g.get("before")
+                for sub in node.body:
+                    for n2 in ast.walk(sub):
+                        if isinstance(n2, ast.stmt) and not isinstance(n2, (ast.For, ast.While, ast.If, ast.Try, ast.With)) \
+                                and ast.unparse(n2).startswith(anchor):
+                            mod[g["let"]] = "rebind"
 
         def bind_it(s, v):
             if itname:
@@ -1016,12 +1025,25 @@ class Exec:
         if isinstance(op, ast.Sub):
             return a - b
         if isinstance(op, ast.Mult):
+            if is_z3(a) and is_z3(b) and not (z3.is_rational_value(a) or z3.is_int_value(a) or z3.is_rational_value(b) or z3.is_int_value(b)) \
+                    and self.ctx.nonlinear == "uf":
+                # products of two symbolic terms are abstracted by an uninterpreted function
+                # (sound: only congruence is available); linear arithmetic stays decidable
+                srt = R if k == "real" else I
+                f = self.ctx.uf("nlmul_" + k, srt, srt, srt)
+                if not st.ghost.get("nlmul_comm_" + k):
+                    st.ghost["nlmul_comm_" + k] = True
+                    u, v = z3.Const(uid("u"), srt), z3.Const(uid("v"), srt)
+                    st.pc.append(z3.ForAll([u, v], f(u, v) == f(v, u), patterns=[f(u, v)]))
+                return f(to_z3(a), to_z3(b))
             return a * b
         if isinstance(op, ast.Div):
             a, b = as_real(a), as_real(b)
             self.oblige(st, znot(values_equal(b, 0)), "division-by-zero", node)
             if conc:
                 return Fraction(a) / Fraction(b)
+            if is_z3(b) and not z3.is_rational_value(b) and self.ctx.nonlinear == "uf":
+                return self.ctx.uf("nldiv", R, R, R)(to_z3(a), b)
             return to_z3(a) / to_z3(b)
         if isinstance(op, (ast.FloorDiv, ast.Mod)):
             self.oblige(st, znot(values_equal(b, 0)), "division-by-zero", node)
